@@ -56,6 +56,21 @@ Proof.
     + exists None; split; auto; discriminate.
 Qed.
 
+(* the client of a jwt-bearer request: the authenticated one, or the anonymous client *)
+Lemma run_jwt_bearer_client w cr st :
+  exists oc, run_seq (jwt_bearer_client w cr) st = (st, oc) /\
+             (forall c, oc = Some c -> lookup_client w st (cr_id cr) = Some c \/ c = anonymous_client (w_cfg w)).
+Proof.
+  unfold jwt_bearer_client. rewrite run_seq_bind. destruct (run_authenticated w cr st) as [oc [E L]]. rewrite E.
+  destruct oc as [c|]; cbn.
+  - exists (Some c). split; [reflexivity|]. intros c' H; inversion H; subst. left. apply L. reflexivity.
+  - destruct (_ && _)%bool; cbn; [exists (Some (anonymous_client (w_cfg w)))|exists None]; (split; [reflexivity|]); [|discriminate].
+    intros c' H; inversion H; auto.
+Qed.
+(* the anonymous client gets opaque tokens: its token options are the harness's default *)
+Lemma make_token_anon n cfg gt : make_token n (anonymous_client cfg) gt = (mint n KAtOpaque, mint n KAtOpaque).
+Proof. reflexivity. Qed.
+
 (* whatever the storage replies, every leaf satisfies P *)
 Fixpoint rets_ok {A} (P : A -> Prop) (p : prog A) : Prop :=
   match p with
@@ -315,6 +330,22 @@ Lemma quiet_step w st o (p : prog out) sto :
   rets_ok quiet p -> pw_ok w st o (snd (run_seq (bind p (fun x => Ret (Out x))) sto)) = true.
 Proof. intros H. rewrite run_seq_lift. apply pw_ok_nojwt. apply (rets_ok_run quiet p H). Qed.
 
+Lemma jwt_bearer_grant_pw w n now r st :
+  pw_ok w st (OpToken GJwtBearer r) (Out (snd (run_seq (jwt_bearer_grant w n now r) st))) = true.
+Proof.
+  unfold jwt_bearer_grant.
+  destruct (negb (has_grant GJwtBearer (cf_grants (w_cfg w)))); [reflexivity|].
+  rewrite run_seq_bind. destruct (run_jwt_bearer_client w (t_cred r) st) as [oc [E L]]. rewrite E.
+  destruct oc as [c|]; [|reflexivity]. destruct (L c eq_refl) as [L1|L1].
+  - eapply pw_ok_from_nojwt; [reflexivity | exact L1 |].
+    apply rets_ok_run; crunchr; leaf.
+  - (* the anonymous client: never a JWT *)
+    subst c. apply pw_ok_nojwt. apply (rets_ok_run quiet).
+    crunchr; try reflexivity; try exact I.
+    all: match goal with E : make_token _ (anonymous_client _) _ = _ |- _ => rewrite make_token_anon in E; inversion E; subst end.
+    all: unfold quiet, carries_jwt; cbn; rewrite is_kind_mint_other; [reflexivity | cbn; lia].
+Qed.
+
 Lemma step_pw_ok w st n o : pw_ok w (s_store st) o (snd (step w st n o)) = true.
 Proof.
   unfold step, step_with.
@@ -327,7 +358,7 @@ Proof.
   - rewrite run_seq_lift. apply continue_auth_pw.
   - apply quiet_step, push_auth_quiet.
   - destruct g; try reflexivity; rewrite run_seq_lift.
-    + apply cc_grant_pw. + apply code_grant_pw. + apply refresh_grant_pw. + apply ciba_grant_pw.
+    + apply cc_grant_pw. + apply code_grant_pw. + apply refresh_grant_pw. + apply jwt_bearer_grant_pw. + apply ciba_grant_pw.
   - apply quiet_step, introspect_quiet.
   - apply quiet_step, revoke_quiet.
   - apply quiet_step, userinfo_quiet.
